@@ -132,4 +132,16 @@ CLAIMED = {
                 "reader + scipy CubicSpline.",
         "technique": "property-based testing: synthetic exact combinations + algebraic identities + metamorphic limits isolation",
     },
+    "C04": {
+        "text": "Model-based histories over a world of three objects (two point isotherms sharing an Adsorbate, model "
+                "isotherms) in generated unit configurations: 2-10 read-only operations from a ~30-entry catalogue (accessors, "
+                "interpolation with every branch / kind / fill / range position, exports, every characterisation entry point, "
+                "model fitting, IAST, adsorbate properties at other temperatures); every operation is first issued on an "
+                "identical freshly built world (new registry objects, empty module caches) and must give the same outcome "
+                "class and value, and the fingerprint of every object must be unchanged. Focused sub-generators for "
+                "interpolator cache keys and for module-level caches / thermodynamic state.",
+        "note": "Outcome comparison rel 1e-10; the history world keeps its own module-level caches and registry objects while "
+                "the fresh world runs.",
+        "technique": "property-based testing: operation histories with a fresh-object differential oracle and before/after fingerprints",
+    },
 }
